@@ -36,16 +36,17 @@ type WriteEvent struct {
 
 // Sink is an append-only destination.
 type Sink struct {
-	mu      sync.Mutex
-	Data    []byte
-	Journal []WriteEvent
-	api     int
-	fault   *scen.Fault
-	fired   bool
-	Fired   int // number of write calls that were failed by the plan
-	discard bool
-	Total   int64
+	mu          sync.Mutex
+	Data        []byte
+	Journal     []WriteEvent
+	api         int
+	fault       *scen.Fault
+	fired       bool
+	Fired       int // number of write calls that were failed by the plan
+	discard     bool
+	Total       int64
 	KeepJournal bool
+	calls       int
 }
 
 func NewSink(fault *scen.Fault) *Sink {
@@ -58,15 +59,13 @@ func NewDiscardSink() *Sink { return &Sink{api: -1, discard: true} }
 // SetAPI tags subsequent writes with the API call index in flight.
 func (s *Sink) SetAPI(i int) { s.mu.Lock(); s.api = i; s.mu.Unlock() }
 
-func (s *Sink) Calls() int { return len(s.Journal) }
+func (s *Sink) Calls() int { return s.calls }
 
 func (s *Sink) Write(p []byte) (int, error) {
 	s.mu.Lock()
 	defer s.mu.Unlock()
-	call := len(s.Journal)
-	if !s.KeepJournal {
-		call = int(s.Total) // unused
-	}
+	call := s.calls
+	s.calls++
 	ev := WriteEvent{Call: call, API: s.api, Off: int64(len(s.Data)), Len: len(p)}
 	if s.discard {
 		ev.Off = s.Total
@@ -139,9 +138,9 @@ type Source struct {
 	del   scen.Delivery
 	fault *scen.Fault
 	// pending error for Mode=="next_call"
-	pendingErr bool
+	pendingErr    bool
 	transientDone bool
-	St    SourceStats
+	St            SourceStats
 	// Touched, when non-nil, records which bytes were delivered.
 	Touched []bool
 }
